@@ -7,7 +7,7 @@ from . import gk
 
 PROP = "C04"
 META = {
-    "bounds": "kernels under each adjacent transposition: cliquishness-4 all graphs n<=4 (5 thorough), cross kernels all graphs "
+    "bounds": "kernels under each adjacent transposition: cliquishness-4 all graphs n<=5 (6 thorough), cliquishness-5 n<=6, cross kernels all graphs "
               "n<=4 with all list pairs, n.s.i. betweenness kernel all 64 graphs n=4 (1024 n=5 thorough) with real weights",
     "assumptions": ["exact real arithmetic"],
     "outside": ["measures forwarded to igraph and ARPACK"],
@@ -31,9 +31,12 @@ def prepare(tier):
 def obligations(tier):
     th = tier == "thorough"
     obs = []
-    for n in ((4,) if not th else (4, 5)):
+    for n in ((4, 5) if not th else (4, 5, 6)):
         for k in range(n - 1):
             obs.append((gk.ob_cliquishness_perm, dict(name=f"C04|cliquishness4|n={n}|swap({k},{k + 1})", prop=PROP, order=4, n=n, k=k), 3000))
+    for n in ((5, 6) if not th else (5, 6)):
+        for k in range(n - 1):
+            obs.append((gk.ob_cliquishness_perm, dict(name=f"C04|cliquishness5|n={n}|swap({k},{k + 1})", prop=PROP, order=5, n=n, k=k), 3000))
     for n in (3, 4):
         pairs = gk.disjoint_pairs(n)
         for k in range(n - 1):
